@@ -11,7 +11,7 @@ cp "$WT/SEED/patch.diff" "$OUT/patch.diff"
 rm -rf "$OUT/demo"; cp -r "$WT/SEED/demo" "$OUT/demo"
 cp "$WT/SEED/meta.json" "$OUT/agent_meta.json"
 DEMO=$(python3 -c 'import json,sys; print(json.load(open(sys.argv[1]))["demo_cmd"])' "$WT/SEED/meta.json")
-DEMO=$(echo "$DEMO" | sed "s#cd <checkout> && ##")
+DEMO=$(echo "$DEMO" | sed -E "s#cd <[a-z]+> && ##")
 PROP=$(python3 -c 'import json,sys; print(json.load(open(sys.argv[1]))["property"])' "$WT/SEED/meta.json")
 cd "$WT" || exit 2
 # keep the SEED directory out of ./...
